@@ -577,10 +577,7 @@ func c09PanicSources(c *Ctx, rule string) {
 							g := f.Graph()
 							if loc, ok := g.Locate(y); ok {
 								r := recvName(f)
-								okG = dominatedByReturnGuard(f, g, loc, func(cond ast.Expr) bool {
-									s := exprKey(cond)
-									return s == r+".cur==len("+r+".tokens)" || s == r+".cur>=len("+r+".tokens)"
-								})
+								okG = g.HoldsAt(loc, Rel{r + ".cur", token.NEQ, "len(" + r + ".tokens)"})
 							}
 						}
 						c.Check(okG, rule, key, y.Pos(), "cursor advanced only while cur != len(tokens)", "the cursor can be advanced past the end of the token list (or is changed outside Advance)")
@@ -638,10 +635,7 @@ func indexGuarded(f *Func, g *Graph, n ast.Node, x, index ast.Expr) (bool, strin
 		return true, "range index over the same slice"
 	}
 	// x[i] after `if i == len(x) { return }`
-	if dominatedByReturnGuard(f, g, loc, func(cond ast.Expr) bool {
-		s := exprKey(cond)
-		return s == is+"==len("+xs+")" || s == is+">=len("+xs+")"
-	}) {
+	if g.HoldsAt(loc, Rel{is, token.NEQ, "len(" + xs + ")"}) {
 		return true, "dominated by the `" + is + " == len(" + xs + ")` return (cursor never exceeds the length: stored only by the guarded increment)"
 	}
 	// x[i-1] after `if i == 0 { return }`
